@@ -24,7 +24,9 @@ EXPLANATION = (
     "dispatch (necessary for 'exactly the grid obtained by hand with the same arguments'); methods "
     "that branch on the store flag return weights of the same provenance in both branches "
     "(necessary for 'do not depend on whether atomic grids are stored'); the constructor "
-    "concatenates by the index table and applies the aim weights once.  NOT decided: numerical "
+    "concatenates by the index table and applies the aim weights once; no per-atom value is carried "
+    "from one atom to the next; per-atom sequences are addressed in the index space of the atoms "
+    "(index-space inference).  NOT decided: numerical "
     "equality of integrals, the 1% end-to-end accuracy clause.")
 RULE = "one instance per (constructor, parameter), per container dispatch branch, per store-branching method, per ctor obligation"
 
